@@ -30,7 +30,7 @@ let parse_acts (w : string list) : string list * act list =
     | "ev" :: k :: r -> AOffer (nat_of_int (int_of_string k)) :: go r
     | "quit" :: r -> AQuit :: go r
     | ("start" | "destroy") as c :: r -> ctl := c :: !ctl; go r
-    | "pt" :: r -> go r      (* a schedule point of the driver between two user actions: no model step *)
+    | ("pt" | "wx") :: r -> go r   (* pt: a schedule point of the driver; wx: wait for the end of the thread function: no model step *)
     | x :: _ -> failwith ("bad act " ^ x) in
   let a = go w in
   (List.rev !ctl, a)
@@ -49,10 +49,12 @@ let tok_after (tok : string) (key : string) =
 
 type vk = VSection | VWriteEv | VWritePipe | VSilent | VOther
 
-let validate_elt (pts : bool) (uacts : act list) (scripts : (int * act list) list) (lines : string list) : int * bool =
-  let es = gen_eshape and sh = gen_shape in
-  let scr (t : nat) = try List.assoc (int_of_nat t) scripts with Not_found -> [] in
-  let st = ref (einit [] uacts) in
+(* one EventLoopThread being validated: `get` reads its model state, `stepf` performs a model step (false = not
+   enabled); lines are fed with the owner called T0 and the child T1 *)
+type comp = { handle : string -> unit; finish : unit -> int * bool; give_destroy_token : unit -> unit; owner_done : unit -> bool }
+
+let mk_comp (pts : bool) (es : eshape) (sh : shape) (scr : nat -> act list) (get : unit -> elt) (stepf : elabel -> bool)
+    (any_enabled : unit -> bool) : comp =
   let steps = ref 0 in
   let expected : string Queue.t = Queue.create () in
   let passed = [| false; false |] in
@@ -63,11 +65,10 @@ let validate_elt (pts : bool) (uacts : act list) (scripts : (int * act list) lis
   let notified = ref false in
   let crashed_dead = ref false in
   let do_step lab =
-    let before = List.length !st.ls.sg.log in
-    (match estep es sh scr !st lab with
-     | Some e' -> st := e'
-     | None -> rej "model: step %s not enabled (owner %s)" (match lab with EO -> "EO" | EC -> "EC" | ECRead -> "ECRead" | ESpur -> "ESpur")
-                 (match !st.eo with OInit -> "OInit" | OLatch -> "OLatch" | OLock -> "OLock" | OTest -> "OTest" | OWait -> "OWait"
+    let before = List.length (get ()).ls.sg.log in
+    (if not (stepf lab) then
+       rej "model: step %s not enabled (owner %s)" (match lab with EO -> "EO" | EC -> "EC" | ECRead -> "ECRead" | ESpur -> "ESpur")
+                 (match (get ()).eo with OInit -> "OInit" | OLatch -> "OLatch" | OLock -> "OLock" | OTest -> "OTest" | OWait -> "OWait"
                                     | OUnlock -> "OUnlock" | OUser -> "OUser" | ODtor -> "ODtor" | OQuit -> "OQuit" | OJoin -> "OJoin"
                                     | ODone -> "ODone"));
     incr steps;
@@ -75,9 +76,9 @@ let validate_elt (pts : bool) (uacts : act list) (scripts : (int * act list) lis
     let rec drop n l = if n = 0 then l else match l with [] -> [] | _ :: r -> drop (n - 1) r in
     List.iter (function
         | EExecQ t | EExecI t -> Queue.add (Printf.sprintf "x %d" (int_of_nat t)) expected
-        | _ -> ()) (drop before !st.ls.sg.log) in
+        | _ -> ()) (drop before (get ()).ls.sg.log) in
   let mop_kind il m : vk * string option =
-    let g = !st.ls.sg in
+    let g = (get ()).ls.sg in
     match m with
     | MQueue _ -> (VSection, None)
     | MWakeTest -> ((if sh.wake il g.calling g.looping then VWriteEv else VSilent), Some "queue_mid")
@@ -87,7 +88,7 @@ let validate_elt (pts : bool) (uacts : act list) (scripts : (int * act list) lis
     | MOffer _ -> (VWritePipe, None) in
   (* the owner's next step: its kind and the instrumentation point in front of it *)
   let next_owner () : vk * string option =
-    let e = !st in
+    let e = (get ()) in
     match e.eo with
     | OTest -> if e.ptr then (VSilent, None) else (VOther, None)
     | OUser -> (match fcode_at e.ls O with m :: _ -> mop_kind false m | [] -> (VSilent, None))
@@ -95,11 +96,11 @@ let validate_elt (pts : bool) (uacts : act list) (scripts : (int * act list) lis
     | OQuit -> (match fcode_at e.ls (S O) with m :: _ -> mop_kind false m | [] -> (VSilent, None))
     | _ -> (VOther, None) in
   let owner_gated () =
-    let e = !st in
+    let e = (get ()) in
     (match e.eo, fcode_at e.ls O with OUser, [] -> !destroy_tok <= 0 | _ -> false) ||
     (match snd (next_owner ()) with Some _ -> pts && not passed.(0) | None -> false) in
   let next_child () : vk * string option =
-    let e = !st in
+    let e = (get ()) in
     match e.ec with
     | CCallback | CPublish | CClear | CDestroy -> (VSilent, None)
     | CLoop ->
@@ -117,30 +118,31 @@ let validate_elt (pts : bool) (uacts : act list) (scripts : (int * act list) lis
          | LDone, _ -> (VSilent, None))
     | _ -> (VOther, None) in
   let child_gated () =
-    (!cb_wait && !st.ec = CLoop) ||
+    (!cb_wait && (get ()).ec = CLoop) ||
     (match snd (next_child ()) with Some _ -> pts && not passed.(1) | None -> false) in
   let rec eager x =
     if x = 0 then begin
       if not (owner_gated ()) && fst (next_owner ()) = VSilent then begin
-        (match !st.eo, fcode_at !st.ls O with OUser, [] -> decr destroy_tok | _ -> ());
+        (match (get ()).eo, fcode_at (get ()).ls O with OUser, [] -> decr destroy_tok | _ -> ());
         do_step EO; eager 0 end end
     else if not (child_gated ()) && fst (next_child ()) = VSilent then begin do_step EC; eager 1 end in
   let check_obs w =
-    let e = !st in
+    let e = (get ()) in
     let g = e.ls.sg in
     let chk key v = match obs_of w key with
       | Some s when s <> string_of_int v -> rej "observer %s: implementation %s, model %d" key s v
       | _ -> () in
     let dead = List.mem "dead" w in
-    if dead && e.alive then rej "the implementation's loop does not exist, the model's does";
-    if (not dead) && not e.alive then rej "the implementation's loop exists, the model's does not";
-    if not dead then begin
+    let observed = dead || obs_of w "q" <> None in
+    if observed && dead && e.alive then rej "the implementation's loop does not exist, the model's does";
+    if observed && (not dead) && not e.alive then rej "the implementation's loop exists, the model's does not";
+    if observed && not dead then begin
       chk "q" (List.length g.pending);
       chk "ev" (int_of_nat g.evfd);
       chk "quit" (if g.quit then 1 else 0);
       chk "call" (if g.calling then 1 else 0);
       chk "loop" (if g.looping then 1 else 0) end;
-    chk "lp" (if e.ptr then 1 else 0) in
+    (match obs_of w "lp" with Some "9" -> () | _ -> chk "lp" (if e.ptr then 1 else 0)) in
   (* instrumentation points are optional (see extract/C04_driver.ml): a visible step of the thread
      releases a point the implementation did not pass *)
   let rec skip_point x =
@@ -171,15 +173,15 @@ let validate_elt (pts : bool) (uacts : act list) (scripts : (int * act list) lis
         List.iter (fun tok ->
             (match tok_after tok "wake=" with Some v -> wakefd := v | None -> ());
             (match tok_after tok "qm=" with Some v -> m_loop := v | None -> ())) rest;
-        (match !st.ec with CCons -> do_step EC | _ -> rej "loop constructed, the model's child is not at that point");
+        (match (get ()).ec with CCons -> do_step EC | _ -> rej "loop constructed, the model's child is not at that point");
         eager 1
     | "e" :: "T0" :: "started" :: rest ->
-        (match !st.eo with OUser | ODtor | OQuit -> () | _ -> rej "startLoop() returned, the model's owner is still inside it");
+        (match (get ()).eo with OUser | ODtor | OQuit -> () | _ -> rej "startLoop() returned, the model's owner is still inside it");
         if not (List.mem "nonnull=1" rest) then rej "startLoop() returned NULL";
-        (match !st.got with Some true -> () | _ -> rej "startLoop() returned non-null, the model's result differs")
+        (match (get ()).got with Some true -> () | _ -> rej "startLoop() returned non-null, the model's result differs")
     | ["e"; "T0"; "call"; "destroy"] -> skip_point 0; incr destroy_tok; eager 0
     | ["e"; "T0"; "ret"; "destroy"] ->
-        (match !st.eo with ODone -> () | _ -> rej "~EventLoopThread returned, the model's owner is not done")
+        (match (get ()).eo with ODone -> () | _ -> rej "~EventLoopThread returned, the model's owner is not done")
     | ["e"; tx; "x"; t] ->
         if tnum tx <> 1 then rej "task %s executed on T%d, not on the loop's thread" t (tnum tx);
         if Queue.is_empty expected then skip_point 1;
@@ -187,46 +189,46 @@ let validate_elt (pts : bool) (uacts : act list) (scripts : (int * act list) lis
         let e = Queue.pop expected in
         if e <> "x " ^ t then rej "implementation runs task %s, the model runs '%s'" t e
     | "e" :: _ :: "UAF" :: _ ->
-        if not (!st.uaf_dtor || !st.uaf_user || not !st.alive) then rej "use of the destroyed loop, the model's loop is alive"
+        if not ((get ()).uaf_dtor || (get ()).uaf_user || not (get ()).alive) then rej "use of the destroyed loop, the model's loop is alive"
     | "e" :: _ -> ()
     | "t" :: _ :: tx :: kind :: obj :: res :: obs when not !stuck ->
         let x = tnum tx in
         if x > 1 then rej "unknown thread T%d" x;
         (match kind, x with
-         | "create", 0 -> (match !st.eo with OInit -> do_step EO | _ -> rej "thread created twice"); check_obs obs
+         | "create", 0 -> (match (get ()).eo with OInit -> do_step EO | _ -> rej "thread created twice"); check_obs obs
          | "begin", _ -> ()
          (* ---- Thread::start latch *)
          | ("lock" | "wait" | "wake" | "bcast" | "sig"), _ when obj = !m_latch || obj = !c_latch -> ()
          | "unlock", 1 when obj = !m_latch ->
-             (match !st.ec with CStart -> do_step EC | _ -> rej "child counts the latch down twice"); check_obs obs; eager 1
+             (match (get ()).ec with CStart -> do_step EC | _ -> rej "child counts the latch down twice"); check_obs obs; eager 1
          | "unlock", 0 when obj = !m_latch ->
-             (match !st.eo with OLatch -> do_step EO | _ -> rej "owner leaves Thread::start() at an unexpected point"); check_obs obs
+             (match (get ()).eo with OLatch -> do_step EO | _ -> rej "owner leaves Thread::start() at an unexpected point"); check_obs obs
          (* ---- mutex_ / cond_ of the EventLoopThread *)
          | "lock", 0 when obj = !m_elt ->
-             (match !st.eo with OLock -> do_step EO | _ -> rej "owner locks mutex_ outside startLoop()"); check_obs obs; eager 0
+             (match (get ()).eo with OLock -> do_step EO | _ -> rej "owner locks mutex_ outside startLoop()"); check_obs obs; eager 0
          | "wait", 0 when obj = !c_elt ->
-             (match !st.eo, !st.ptr with
+             (match (get ()).eo, (get ()).ptr with
               | OTest, false -> do_step EO
               | _ -> rej "owner waits although the model's loop_ is set / it is not at the test"); check_obs obs
          | "wake", 0 when obj = !c_elt ->
-             (match !st.eo with OWait -> () | _ -> rej "owner woken outside its wait");
-             if res = "spur" then (if not !st.signalled then do_step ESpur)
-             else if not !st.signalled then rej "owner woken by a notification, the model sent none";
+             (match (get ()).eo with OWait -> () | _ -> rej "owner woken outside its wait");
+             if res = "spur" then (if not (get ()).signalled then do_step ESpur)
+             else if not (get ()).signalled then rej "owner woken by a notification, the model sent none";
              do_step EO; check_obs obs; eager 0
          | "unlock", 0 when obj = !m_elt ->
-             (match !st.eo with OUnlock -> do_step EO | _ -> rej "owner unlocks mutex_ at an unexpected point"); check_obs obs; eager 0
+             (match (get ()).eo with OUnlock -> do_step EO | _ -> rej "owner unlocks mutex_ at an unexpected point"); check_obs obs; eager 0
          | "lock", 1 when obj = !m_elt ->
              skip_point 1;
-             (match !st.ec with
+             (match (get ()).ec with
               | CLock1 | CLock2 -> do_step EC
               | _ -> rej "child locks mutex_ at an unexpected point");
              notified := false; check_obs obs; eager 1
          | ("sig" | "bcast"), 1 when obj = !c_elt ->
              if not es.tf_notifies then rej "child notifies, the generated shape says it does not";
-             (match !st.ec with CUnlock1 -> () | _ -> rej "child notifies at an unexpected point");
+             (match (get ()).ec with CUnlock1 -> () | _ -> rej "child notifies at an unexpected point");
              notified := true; check_obs obs
          | "unlock", 1 when obj = !m_elt ->
-             (match !st.ec with
+             (match (get ()).ec with
               | CUnlock1 -> if es.tf_notifies && not !notified then rej "the generated shape notifies after publishing, the implementation did not";
                   do_step EC
               | CUnlock2 -> do_step EC
@@ -240,7 +242,10 @@ let validate_elt (pts : bool) (uacts : act list) (scripts : (int * act list) lis
              if x = 0 then (need_owner VSection "unlock of the queue mutex"; do_step EO)
              else (need_child VSection "unlock of the queue mutex"; do_step EC);
              check_obs obs; eager x
-         | "point", _ when obj = "user" || obj = "tf_exit" -> ()
+         | "point", _ when obj = "user" || obj = "tf_exit" || obj = "before_pool_destroy" -> ()
+         | "point", 0 when obj = "waited" ->
+             (* sched::wait_exit: the owner has waited for the end of the thread function *)
+             (match (get ()).ec with CExited -> () | _ -> rej "the owner saw the thread function return, the model's child has not exited")
          | "point", _ ->
              if not pts then rej "point %s in a run without points" obj;
              (match snd (if x = 0 then next_owner () else next_child ()) with
@@ -253,56 +258,172 @@ let validate_elt (pts : bool) (uacts : act list) (scripts : (int * act list) lis
          | "write", 0 ->
              (* a wake-up write by the owner; on a destroyed loop the descriptor is garbage *)
              need_owner VWriteEv "a wake-up write";
-             if !st.alive && (obj <> !wakefd || res <> "8") then rej "wake-up write on %s returned %s" obj res;
+             if (get ()).alive && (obj <> !wakefd || res <> "8") then rej "wake-up write on %s returned %s" obj res;
              do_step EO; check_obs obs; eager 0
          | "write", 1 when obj = !wakefd ->
              if res <> "8" then rej "wake-up write returned %s" res;
              need_child VWriteEv "a wake-up write"; do_step EC; check_obs obs; eager 1
          | "read", 1 when obj = !wakefd ->
-             (match !st.ec, !st.ls.pc with CLoop, LHandle true -> () | _ -> rej "handleRead() although the model's wake-up channel is not active");
+             (match (get ()).ec, (get ()).ls.pc with CLoop, LHandle true -> () | _ -> rej "handleRead() although the model's wake-up channel is not active");
              do_step ECRead; check_obs obs; eager 1
          | "read", _ -> ()
          | "poll", 1 ->
              skip_point 1;
-             (match !st.ec, !st.ls.pc with CLoop, LPoll -> () | _ -> rej "child polls, the model's child is not in poll");
+             (match (get ()).ec, (get ()).ls.pc with CLoop, LPoll -> () | _ -> rej "child polls, the model's child is not in poll");
              if child_gated () then rej "child polls but the model's child is held at a point";
              let n = int_of_string res in
-             let g = !st.ls.sg in
+             let g = (get ()).ls.sg in
              let exp = (if int_of_nat g.evfd > 0 then 1 else 0) + (if g.evq <> [] then 1 else 0) in
              if n <> exp then rej "poll returned %d ready descriptors, the model has %d" n exp;
              if n = 0 then rej "poll returned 0 (time-out / interrupt), which the handshake model does not offer";
              do_step EC; check_obs obs; eager 1
          | "tmo", 1 ->
-             (match !st.ec, !st.ls.pc with CLoop, LPoll -> () | _ -> rej "time-out although the model's child is not in poll");
-             if poll_ready !st.ls.sg then rej "the implementation is stuck in poll, the model's poll is ready";
+             (match (get ()).ec, (get ()).ls.pc with CLoop, LPoll -> () | _ -> rej "time-out although the model's child is not in poll");
+             if poll_ready (get ()).ls.sg then rej "the implementation is stuck in poll, the model's poll is ready";
              check_obs obs; stuck := true
          | "join", 0 ->
              skip_point 0;
-             (match !st.eo with OJoin -> do_step EO | _ -> rej "owner joins at an unexpected point"); check_obs obs
-         | "exit", 1 -> (match !st.ec with CExited -> () | _ -> rej "child exits, the model's child has not finished")
+             (match (get ()).eo with OJoin -> do_step EO | _ -> rej "owner joins at an unexpected point"); check_obs obs
+         | "exit", 1 -> (match (get ()).ec with CExited -> () | _ -> rej "child exits, the model's child has not finished")
          | "exit", 0 -> ()
          | ("after" | "spur"), _ -> ()
          | k, _ -> rej "unexpected trace line %s %s by T%d" k obj x)
     | "t" :: _ -> ()
     | "DEADLOCK" :: _ ->
         (* nothing can run in the implementation: the model must be stuck too *)
-        if enabled_any es sh scr !st then rej "DEADLOCK in the implementation, the model can still step"
+        if any_enabled () then rej "DEADLOCK in the implementation, the model can still step"
     | "STEPLIMIT" :: _ -> rej "step limit (livelock) in the implementation"
     | "CRASH" :: _ ->
         (* the sanitizer stops the implementation at its first access to the destroyed loop: the
            model's owner must be about to make (or have made) such an access *)
-        if !st.uaf_dtor || !st.uaf_user then ()
-        else if (not !st.alive) && (match !st.eo with OQuit -> fcode_at !st.ls (S O) <> [] | OUser -> fcode_at !st.ls O <> [] | _ -> false)
+        if (get ()).uaf_dtor || (get ()).uaf_user then ()
+        else if (not (get ()).alive) && (match (get ()).eo with OQuit -> fcode_at (get ()).ls (S O) <> [] | OUser -> fcode_at (get ()).ls O <> [] | _ -> false)
         then crashed_dead := true
         else rej "implementation crashed"
     | _ -> () in
+  { handle = handle;
+    finish = (fun () ->
+        if not (Queue.is_empty expected) then
+          raise (Reject (Printf.sprintf "the model ran '%s' which the implementation never did | -" (Queue.peek expected)));
+        (!steps, (get ()).uaf_dtor || (get ()).uaf_user || !crashed_dead));
+    give_destroy_token = (fun () -> skip_point 0; incr destroy_tok; eager 0);
+    owner_done = (fun () -> match (get ()).eo with ODone -> true | _ -> false) }
+
+let run_lines (f : string -> unit) (lines : string list) =
   let lineno = ref 0 in
   List.iter (fun l ->
       incr lineno;
-      try handle l with Reject s -> raise (Reject (Printf.sprintf "%d: %s | %s" !lineno s l))) lines;
-  if not (Queue.is_empty expected) then
-    raise (Reject (Printf.sprintf "%d: the model ran '%s' which the implementation never did | -" !lineno (Queue.peek expected)));
-  (!steps, !st.uaf_dtor || !st.uaf_user || !crashed_dead)
+      try f l with Reject s -> raise (Reject (Printf.sprintf "%d: %s | %s" !lineno s l))) lines
+
+let validate_elt (pts : bool) (uacts : act list) (scripts : (int * act list) list) (lines : string list) : int * bool =
+  let es = gen_eshape and sh = gen_shape in
+  let scr (t : nat) = try List.assoc (int_of_nat t) scripts with Not_found -> [] in
+  let st = ref (einit [] uacts) in
+  let c = mk_comp pts es sh scr (fun () -> !st)
+      (fun lab -> match estep es sh scr !st lab with Some e' -> st := e'; true | None -> false)
+      (fun () -> enabled_any es sh scr !st) in
+  run_lines c.handle lines;
+  c.finish ()
+
+(* ------------------------------------------------------------------ the pool as a system (C05_PoolSysModel.pstep) *)
+(* kind=pool: T0 is the owner, T(i+1) the child of pool thread i.  Every line is routed to the component it
+   belongs to (by thread, by the names of the latch / mutex_ / cond_ / queue mutex / wake-up descriptor of that
+   thread, which the driver prints after start()), renamed to the component's view (owner T0, child T1) and
+   validated by the same mapper as a single EventLoopThread -- but every model step is a step of the extracted
+   pstep on the whole pool state, so the discipline of start() / user code / ~EventLoopThreadPool (owner_guard) is
+   checked as well.  Thread i's user code is the one task the driver gives to loop i: runInLoop(task i). *)
+let validate_pool (n : int) (lines : string list) : int =
+  let es = gen_eshape and sh = gen_shape in
+  let scr (_ : nat) = [] in
+  let specs = List.init n (fun i -> ([], [ARun (nat_of_int i)])) in
+  let els = ref (pinit specs) in
+  let nth i = match List.nth_opt !els i with Some e -> e | None -> failwith "component" in
+  let pool_enabled () =
+    let r = ref false in
+    for i = 0 to n - 1 do
+      let ni = nat_of_int i in
+      List.iter (fun l -> if pstep es sh scr !els l <> None then r := true) [PO ni; PC ni; PCRead ni]
+    done; !r in
+  let comps = Array.init n (fun i ->
+      let ni = nat_of_int i in
+      mk_comp false es sh scr (fun () -> nth i)
+        (fun lab ->
+           let pl = match lab with EO -> PO ni | EC -> PC ni | ECRead -> PCRead ni | ESpur -> PSpur ni in
+           match pstep es sh scr !els pl with Some p' -> els := p'; true | None -> false)
+        pool_enabled) in
+  (* names of thread i's objects *)
+  let names = Array.make n [] in
+  let wake = Array.make n "?" and qm = Array.make n "?" in
+  List.iter (fun l ->
+      match split_ws l with
+      | "e" :: "T0" :: "pool" :: "thread" :: i :: rest ->
+          let i = int_of_string i in
+          if i < n then begin
+            List.iter (fun tok ->
+                List.iter (fun key ->
+                    match tok_after tok key with
+                    | Some v -> names.(i) <- String.split_on_char ',' v @ names.(i)
+                    | None -> ()) ["latch="; "elt="]) rest;
+            comps.(i).handle ("e T0 elt created " ^ String.concat " " rest) end
+      | "e" :: tx :: "loop" :: "created" :: rest ->
+          let i = tnum tx - 1 in
+          if i >= 0 && i < n then
+            List.iter (fun tok ->
+                (match tok_after tok "wake=" with Some v -> wake.(i) <- v | None -> ());
+                (match tok_after tok "qm=" with Some v -> qm.(i) <- v | None -> ())) rest
+      | _ -> ()) lines;
+  let owner_comp obj =
+    let r = ref (-1) in
+    for i = 0 to n - 1 do
+      if List.mem obj names.(i) || obj = wake.(i) || obj = qm.(i) then r := i done;
+    !r in
+  (* the observers of component i: token P<i>=q:ev:quit:call:loop:lp | P<i>=dead:lp *)
+  let obs_for i (obs : string list) : string list =
+    let key = Printf.sprintf "P%d=" i in
+    let rec go = function
+      | [] -> []
+      | t :: r ->
+          (match tok_after t key with
+           | Some v ->
+               (match String.split_on_char ':' v with
+                | ["dead"; lp] -> ["dead"; "lp=" ^ lp]
+                | [q; ev; quit; call; loop; lp] -> ["q=" ^ q; "ev=" ^ ev; "quit=" ^ quit; "call=" ^ call; "loop=" ^ loop; "lp=" ^ lp]
+                | _ -> [])
+           | None -> go r) in
+    go obs in
+  let feed i (w : string list) = comps.(i).handle (String.concat " " w) in
+  let handle (line : string) =
+    match split_ws line with
+    | "e" :: "T0" :: "pool" :: "thread" :: _ -> ()
+    | ["e"; "T0"; "pool"; "started"] ->
+        Array.iteri (fun i c -> if not (o_past_start (nth i)) then rej "start() returned, thread %d of the model has not been started" i; ignore c) comps
+    | ["e"; "T0"; "pool"; "destroying"] -> if n > 0 then comps.(0).give_destroy_token ()
+    | "e" :: tx :: rest when tnum tx >= 1 && tnum tx <= n -> feed (tnum tx - 1) ("e" :: "T1" :: rest)
+    | "e" :: _ -> ()
+    | "t" :: step :: tx :: kind :: obj :: res :: obs ->
+        let x = tnum tx in
+        if x > n then rej "unknown thread T%d" x;
+        if x >= 1 then feed (x - 1) ("t" :: step :: "T1" :: kind :: obj :: res :: obs_for (x - 1) obs)
+        else begin
+          let i = if kind = "join" then tnum obj - 1 else if kind = "create" then tnum res - 1 else owner_comp obj in
+          if kind = "point" || kind = "exit" || kind = "begin" then ()
+          else if i < 0 || i >= n then rej "owner line on an object of no pool thread: %s %s" kind obj
+          else begin
+            feed i ("t" :: step :: "T0" :: kind :: (if kind = "join" then "T1" else obj) :: (if kind = "create" then "T1" else res) :: obs_for i obs);
+            (* ~EventLoopThreadPool destroys its threads in order: the next destructor starts when this one is done *)
+            if kind = "join" && comps.(i).owner_done () && i + 1 < n then comps.(i + 1).give_destroy_token ()
+          end
+        end
+    | "DEADLOCK" :: _ -> if pool_enabled () then rej "DEADLOCK in the implementation, the pool model can still step"
+    | "STEPLIMIT" :: _ -> rej "step limit (livelock) in the implementation"
+    | "CRASH" :: _ -> rej "implementation crashed"
+    | _ -> () in
+  run_lines handle lines;
+  let total = ref 0 in
+  Array.iter (fun c -> let (k, _) = c.finish () in total := !total + k) comps;
+  Array.iteri (fun i _ -> if List.mem "pool destroyed" lines && not (o_done (nth i)) then
+                  raise (Reject (Printf.sprintf "0: the pool was destroyed, thread %d of the model is not done | -" i))) comps;
+  !total
 
 let show_loop = function None -> "-1" | Some i -> string_of_int (int_of_nat i)
 let show_zloop = function None -> "-1" | Some i -> string_of_int (int_of_z i)
@@ -368,7 +489,12 @@ let () =
   let n = ref 0 and calls = ref 0 and hashes = ref [] and ops = ref [] and big = ref 0 and tail = ref 0 in
   let finish () =
     Printf.printf "case %s\n" !cur_id;
-    (if !kind = "pool" then (try pool_case !n !calls !hashes !ops !big !tail with Failure s -> Printf.printf "REJECT 0: %s | -\n" s)
+    (if !kind = "pool" then begin
+        (try pool_case !n !calls !hashes !ops !big !tail with Failure s -> Printf.printf "REJECT 0: %s | -\n" s);
+        if !lines <> [] then
+          (try Printf.printf "accepted %d uaf=0\n" (validate_pool !n (List.rev !lines))
+           with Reject s -> Printf.printf "REJECT %s\n" s
+              | Failure s -> Printf.printf "REJECT 0: validator failure %s | -\n" s) end
      else if !kind <> "elt" then print_string "accepted 0 uaf=0\n"
      else
        try
